@@ -100,7 +100,7 @@ theorem frame_core {A B : Image} {st : Stats} {lnM bbnM : Array UInt8} (hd : wfD
       · rw [h4] at h; cases h
     rcases hbbnch pn with h | h
     · rw [h41, get!_replicate_zero] at h; cases h
-    · rw [mkMarks_mem _ _ _ h hlt] at htr; cases htr
+    · rw [mkMarks_mem _ _ _ h.1 hlt] at htr; cases htr
   -- leaves
   obtain ⟨hwalkB, hkvs⟩ := hwalkF B.ln (by
     intro p hp
